@@ -51,6 +51,21 @@ theorem c28_T2_loop_eq_replace (first second merged : α) (toks : List α) :
 example : replaceLoop 0 0 7 3 0 [0, 0, 0] = [7, 0] ∧ replacePairs 0 0 7 [0, 0, 0, 0, 0] = [7, 7, 0] := by
   decide
 
+/-- **C28.T2b** The whole in-place `bpe_merge` (index loop + `Vec::remove`) computes the same as the
+purely functional fuel model (rounds of `replacePairs`), for every merge map and token vector. -/
+theorem c28_inplace_refines_functional (m : MergeMap α) (toks : List α) :
+    bpeMerge m toks = bpeMergeFun m toks := by
+  have hr : ∀ t, mergeRound m t = mergeRoundFun m t := fun t => mergeRound_eq m t
+  unfold bpeMerge bpeMergeFun
+  generalize toks.length = n
+  induction n generalizing toks with
+  | zero => rfl
+  | succ n ih =>
+    simp only [bpeMergeFuel, bpeMergeFunFuel, hr]
+    cases mergeRoundFun m toks with
+    | none => rfl
+    | some t' => exact ih t'
+
 /-! ## Meaning of the reference's choice -/
 
 /-- The pair chosen by the reference is an adjacent pair of minimal rank. -/
@@ -117,6 +132,50 @@ theorem c28_T3_refinement (dom : σ → Bool) (v : σ → Nat) (cat : σ → σ 
   unfold refBpeLast at h
   unfold refBpe
   rw [← hr]; exact h
+
+/-- **C28.T4 (textbook algorithm, id level)** For *every* merge map and *every* token vector —
+no injectivity, validity or ordering assumption — `bpe_merge` computes exactly the textbook
+procedure: repeatedly take the lowest-ranked adjacent pair (leftmost among equal ranks), merge
+**all** its non-overlapping occurrences left to right, until no adjacent pair has a rank. -/
+theorem c28_T4_textbook_idlevel (m : MergeMap Nat) (toks : List Nat) :
+    bpeMerge m toks = refBpeBy (mergedOf m) (rankOf m) toks := by
+  have h := bpeMerge_sim (σ := Nat) id (fun _ => True) (fun _ _ _ _ h => h) (mergedOf m) (rankOf m) m
+    (by
+      intro a b _ _
+      simp only [rankOf, mergedOf, id]
+      cases lookup m (a, b) with
+      | none => rfl
+      | some v => simp)
+    (fun _ _ _ _ => trivial) toks (fun _ _ => trivial)
+  simpa using h
+
+/-- The final state of the textbook procedure has no ranked adjacent pair (it really runs
+"until no merge applies"), and each of its rounds shortens the sequence. -/
+theorem c28_T4_textbook_stops (m : MergeMap Nat) (toks : List Nat) :
+    refBestBy (rankOf m) (refBpeBy (mergedOf m) (rankOf m) toks) = none := by
+  rw [← c28_T4_textbook_idlevel]
+  have h := (c28_T1_terminates m toks).1
+  rw [mergeRound_eq] at h
+  rw [refBestBy_none]
+  intro q hq
+  cases hf : findMinPair m (bpeMerge m toks) with
+  | some c => simp [hf] at h
+  | none =>
+    have hc : candidates m (bpeMerge m toks) = [] := (minByKey_eq_none _).mp hf
+    simp only [candidates, List.filterMap_eq_nil_iff, Option.map_eq_none_iff] at hc
+    simp only [rankOf, Option.map_eq_none_iff]
+    exact hc q hq
+
+/-- **All occurrences, not only the first.** Merging only the left-most occurrence of the chosen
+pair per round is a different algorithm: with the (not training-ordered) table `ab a, a b` the
+input `a b a b` gives `[ab, ab]` under `bpe_merge` and the textbook procedure, but `[aba, b]` when
+only the first occurrence is merged before re-selecting (ids: a=0, b=1, aba=2, ab=3). -/
+theorem c28_T4_all_occurrences_not_first_only :
+    bpeMerge [((0, 1), (1, 3)), ((3, 0), (0, 2))] [0, 1, 0, 1] = [3, 3] ∧
+    refBpeBy (mergedOf [((0, 1), (1, 3)), ((3, 0), (0, 2))])
+      (rankOf [((0, 1), (1, 3)), ((3, 0), (0, 2))]) [0, 1, 0, 1] = [3, 3] ∧
+    bpeMergeFirstOnly [((0, 1), (1, 3)), ((3, 0), (0, 2))] [0, 1, 0, 1] = [2, 1] := by
+  decide
 
 /-! ### Non-vacuity and necessity of the guards
 
